@@ -255,3 +255,11 @@ Theorem C16_composite_reference_is_axis_mean : forall (Jp : nat -> val -> val ->
        [vec [Jl 0%nat (base_om re) (num ((g0 + (g1 + (g2 + 0))) / 3)) ne; Jl 1%nat (base_om re) (num ((g0 + (g1 + (g2 + 0))) / 3)) ne]] [] rg cu grids cu [].
 Proof. exact comp_reference_m2l. Qed.
 Print Assumptions C16_composite_reference_is_axis_mean.
+
+(* the emitters never write in place through a parameter with a mutable default (the constructors have lens_light_model_list=["HERNQUIST"]-style
+   defaults in the un-serialised part; of the serialised functions none mutates one): two hierarchy_configuration calls cannot influence
+   each other through a default argument *)
+Require Import Py.Defaults.
+Theorem C16_no_shared_default_state : all_defaults_safe src_fundefs = true.
+Proof. vm_compute. reflexivity. Qed.
+Print Assumptions C16_no_shared_default_state.
